@@ -251,6 +251,14 @@ example : VnBest.run {} [0,1] [4,6,2] = .lenMismatch := by decide
 example : VnFirst.run {} [0,1,2,3,1,2,0] [1,5,1,3,3,1,5] = .ok [0,2,2,3,1,2,0] 1 := by decide
 example : gap (loads [1,5,1,3,3,1,5] [0,2,2,3,1,2,0] 4) = 4 := by decide
 example : VnFirst.run {} [0,1] [4,6,2] = .lenMismatch := by decide
+/-- the hypothesis `unsigned → non-negative` of the VnFirst theorems, on `u64` -/
+example : VnFirst.run { unsigned := true } [0,0,0,1] [4,6,2,9] = .ok [0,0,1,1] 2 ∧
+    ∀ w ∈ ([4,6,2,9] : List Int), 0 ≤ w := by decide
+/-- `vnfirst_loads_inv` after two turns on the D7 witness -/
+example : ((VnFirst.start {} [0,1,2,3,1,2,0] [1,5,1,3,3,1,5]).bind
+    (VnFirst.steps {} [1,5,1,3,3,1,5] 4 2)).map (fun s => (s.ids, s.pl))
+      = some ([0,2,0,3,1,2,0], [7,3,6,3]) ∧
+    loads [1,5,1,3,3,1,5] [0,2,0,3,1,2,0] 4 = [7,3,6,3] := by decide
 /-- hypotheses of `vnbest_step` -/
 example : ([6,8,2,3] : List Int)[1]? = some (maxL [6,8,2,3]) ∧
     ([6,8,2,3] : List Int)[2]? = some (minL [6,8,2,3]) ∧ (0:Int) < 3 ∧ 3 < gap [6,8,2,3] := by decide
